@@ -495,7 +495,9 @@ let () =
       shape_stats "e2e" g opts;
       seen_distinct ("e" ^ gs ^ "|" ^ opts);
       stat ("e2e.code." ^ code);
-      if code <> "OK" then begin
+      if code = "Unanswered" then
+        mismatch id (Printf.sprintf "Set of %s (opts %s) was not answered, twice, on fresh instances" gs opts)
+      else if code <> "OK" then begin
         (* the model says whether the conversion refuses the value *)
         let m0 = native_model false g opts and m1 = native_model true g opts in
         if m0 <> "err" && m1 <> "err" then mismatch id (Printf.sprintf "Set of %s refused with %s, the model accepts it" gs code);
